@@ -1,4 +1,5 @@
 import Hive.Model.OMapPtr
+import Hive.Model.OMapDict
 import Hive.Model.OMapConc
 /-!
 # Line protocol of the C11 driver
@@ -13,6 +14,7 @@ open Hive.Proto
 
 structure World where
   pm : PMap
+  dk : Nat                   -- `dictionary.deletedKeys` of the ordered-map object (Hive/Model/OMapDict.lean)
   am : AMap
   sets : List ASet
   counts : Counts
@@ -24,7 +26,7 @@ structure World where
   arcThr : Int
 
 def World.init : World :=
-  { pm := PMap.empty, am := [], sets := [[], [], [], []], counts := fun _ => 0,
+  { pm := PMap.empty, dk := 0, am := [], sets := [[], [], [], []], counts := fun _ => 0,
     tmaps := [[], [], []], tables := [[], [], []], tlast := [[], [], []],
     arcAdded := [], arcDeleted := [], arcThr := 1 }
 
@@ -45,13 +47,23 @@ def World.putSet (w : World) (r : Nat) (s : ASet) : World := { w with sets := w.
 /-- an argument of type `ReadableSet`: `@j` = register `j`, otherwise a literal list (`NewSet(lit...)`) -/
 def World.arg (w : World) (a : String) : Option ASet :=
   if a.startsWith "@" then (a.drop 1).toNat?.map w.getSet
+  else if a.startsWith "~" then (a.drop 1).toNat?.map w.getSet          -- `ReadOnly()` view of a register: the same contents
+  else if a.startsWith "ro:" then (parseList (a.drop 3).toString).map newSet  -- `NewReadableSet(lit...)`
   else (parseList a).map newSet
+
+/-- the threshold argument of `SetArithmetic`: `_` = omitted (`lo.First(threshold, 1)` = 1), `a,b,..` = variadic list
+of which only the first counts -/
+def parseThr (t : String) : Option Int :=
+  if t == "_" then some 1 else ((t.splitOn ",").head?).bind (·.toInt?)
+
+/-- `readableSet.String()` for `uint16` elements -/
+def showStr (s : ASet) : String := "uint16s(" ++ ", ".intercalate ((elems s).map toString) ++ ")"
 
 def dumpM (w : World) : String :=
   let fe := w.pm.forEach
   if fe == w.am ∧ w.pm.size == w.am.length ∧ w.pm.forEachReverse == w.am.reverse
       ∧ w.pm.headKV == AMap.head w.am ∧ w.pm.tailKV == AMap.tail w.am then
-    s!"{showKVs fe} n={w.pm.size}"
+    s!"{showKVs fe} n={w.pm.size} dk={w.dk}"
   else "MODELS-DISAGREE"
 
 def showMut (m : ASet × ASet) : String := s!"+{showSet m.1} -{showSet m.2}"
@@ -88,7 +100,7 @@ def applyOpA (m : AMap) : PMap.MOp → AMap
   | .del k => (AMap.delete m k).1
   | .clear => []
 
-def stepLine (w : World) (toks : List String) : World × String :=
+def stepLine1 (w : World) (toks : List String) : World × String :=
   match toks with
   -- ordered map object
   | ["mset", k, v] =>
@@ -96,7 +108,7 @@ def stepLine (w : World) (toks : List String) : World × String :=
     | some k, some v =>
       let r := w.pm.set k v
       let ra := AMap.set w.am k v
-      let w' := { w with pm := r.1, am := ra.1 }
+      let w' := { w with pm := r.1, am := ra.1, dk := dkAfter w.dk w.pm [.set k v] }
       if r.2 == ra.2 then (w', s!"prev={showOptNat r.2} | {dumpM w'}") else (w', "MODELS-DISAGREE")
     | _, _ => (w, "bad-op")
   | ["mdel", k] =>
@@ -104,7 +116,7 @@ def stepLine (w : World) (toks : List String) : World × String :=
     | some k =>
       let r := w.pm.delete k
       let ra := AMap.delete w.am k
-      let w' := { w with pm := r.1, am := ra.1 }
+      let w' := { w with pm := r.1, am := ra.1, dk := dkAfter w.dk w.pm [.del k] }
       if r.2 == ra.2 then (w', s!"{showBool r.2} | {dumpM w'}") else (w', "MODELS-DISAGREE")
     | _ => (w, "bad-op")
   | ["mget", k] =>
@@ -118,7 +130,7 @@ def stepLine (w : World) (toks : List String) : World × String :=
   | ["mhead"] => (w, showOptKV w.pm.headKV)
   | ["mtail"] => (w, showOptKV w.pm.tailKV)
   | ["msize"] => (w, s!"{w.pm.size} {showBool (w.pm.size == 0)}")
-  | ["mclear"] => let w' := { w with pm := w.pm.clear, am := [] }; (w', dumpM w')
+  | ["mclear"] => let w' := { w with pm := w.pm.clear, am := [], dk := dkAfter w.dk w.pm [.clear] }; (w', dumpM w')
   | ["mfe"] => (w, showKVs w.pm.forEach)
   | ["mfer"] => (w, showKVs w.pm.forEachReverse)
   | ["mdump"] => (w, dumpM w)
@@ -138,7 +150,7 @@ def stepLine (w : World) (toks : List String) : World × String :=
       let fwd := dir == "fwd"
       let r := PMap.weakWalk fwd 100000 w.pm (if fwd then w.pm.head else w.pm.tail) script
       let allOps := (script.take r.2.1.length).flatMap (·.1)
-      let w' := { w with pm := r.1, am := allOps.foldl applyOpA w.am }
+      let w' := { w with pm := r.1, am := allOps.foldl applyOpA w.am, dk := dkAfter w.dk w.pm allOps }
       (w', s!"{showKVs (r.2.1.map (·.2))} ret={showBool r.2.2} | {dumpM w'}")
     | none => (w, "bad-op")
   | ["menc"] => (w, hex (encode encU16 encU8 w.pm.forEach))
@@ -152,7 +164,20 @@ def stepLine (w : World) (toks : List String) : World × String :=
       let w' := { w with pm := pm', am := ra.1 }
       (w', s!"{match ra.2 with | some n => s!"ok {n}" | none => "err"} | {dumpM w'}")
     | none => (w, "bad-op")
+  -- methods with a nil-receiver guard called on `(*OrderedMap)(nil)`
+  | ["mnil", "foreach"] => (w, "true")
+  | ["mnil", "foreachrev"] => (w, "true")
+  | ["mnil", "size"] => (w, "0")
+  | ["mnil", "isempty"] => (w, "true")
+  | ["mnil", "clear"] => (w, "ok")
+  | ["mnil", "clone"] => (w, "nil")
+  -- the options of a fresh OrderedMap's dictionary, read from the real object
+  | ["dictopts"] => (w, s!"ratio={SOpts.default.ratio} count={SOpts.default.count}")
   -- set registers
+  | ["str", r] =>
+    match r.toNat? with
+    | some r => (w, showStr (w.getSet r))
+    | _ => (w, "bad-op")
   | ["new", r, l] =>
     match r.toNat?, parseList l with
     | some r, some l => let s := newSet l; (w.putSet r s, showSet s)
@@ -286,7 +311,7 @@ def stepLine (w : World) (toks : List String) : World × String :=
   -- the collector functions themselves: `arcnew thr` = fresh SetMutations m with AddedElementsCollector(m, thr) and
   -- SubtractedElementsCollector(m, thr); `arc + e` / `arc - e` = one call; the answer is m after the call
   | ["arcnew", t] =>
-    match t.toInt? with
+    match parseThr t with
     | some t => ({ w with arcAdded := [], arcDeleted := [], arcThr := t }, "ok")
     | none => (w, "bad-op")
   | ["arc", sign, e] =>
@@ -297,13 +322,13 @@ def stepLine (w : World) (toks : List String) : World × String :=
       ({ w with counts := a'.counts, arcAdded := a'.added, arcDeleted := a'.deleted }, showMut (a'.added, a'.deleted))
     | none => (w, "bad-op")
   | ["aradd", a, d, t] =>
-    match parseList a, parseList d, t.toInt? with
+    match parseList a, parseList d, parseThr t with
     | some a, some d, some t =>
       let x := arAdd w.counts (elems (newSet a)) (elems (newSet d)) t
       ({ w with counts := x.counts }, showMut (x.added, x.deleted))
     | _, _, _ => (w, "bad-op")
   | ["arsub", a, d, t] =>
-    match parseList a, parseList d, t.toInt? with
+    match parseList a, parseList d, parseThr t with
     | some a, some d, some t =>
       let x := arSub w.counts (elems (newSet a)) (elems (newSet d)) t
       ({ w with counts := x.counts }, showMut (x.added, x.deleted))
@@ -318,5 +343,11 @@ def stepLine (w : World) (toks : List String) : World × String :=
   | "quiesce" :: rest => (w, quiesceLine rest)
   | "lockscript" :: rest => (w, lockScriptLine rest)
   | _ => (w, "bad-op")
+
+/-- `ro.<read method> r …` = the method called on `set[r].ReadOnly()`: the view shares the set's state -/
+def stepLine (w : World) (toks : List String) : World × String :=
+  match toks with
+  | t :: rest => if t.startsWith "ro." then stepLine1 w ((t.drop 3).toString :: rest) else stepLine1 w toks
+  | [] => stepLine1 w toks
 
 end Hive.OMap
